@@ -371,6 +371,36 @@ def handle (j : Json) : P Json := do
     pure (Json.mkObj [("content", Json.arr (st.content.map (fun (x : Nat) => Json.num (Int.ofNat x))).toArray),
                       ("attached", Json.bool st.attached),
                       ("err", match err with | none => Json.null | some .indexError => "IndexError" | some .valueError => "ValueError" | some .attributeError => "AttributeError")])
+  | "links" =>
+    let ops ← (← fl j "ops").mapM (fun o => do
+      let nat (k : String) : P Nat := do pure (← jInt (← fld o k)).toNat
+      let nats (k : String) : P (List Nat) := do pure ((← (← jArr (← fld o k)).toList.mapM jInt).map Int.toNat)
+      match (← fs o "op") with
+      | "mk" => do pure (Efp.Links.Op.mk (← nats "parents"))
+      | "setattr" => do
+        let sl ← nats "slot"
+        pure (Efp.Links.Op.setAttr (sl[0]!, sl[1]!) (← nat "v"))
+      | "replace" => do pure (Efp.Links.Op.replace (← nat "old") (← nat "new"))
+      | "detach" => do pure (Efp.Links.Op.detach (← nat "v"))
+      | m => throw s!"unknown links op {m}")
+    -- run until the first error; report it with its position
+    let rec go (s : Efp.Links.LS) (k : Nat) : List Efp.Links.Op → (Efp.Links.LS × Option (Nat × Efp.Links.LErr))
+      | [] => (s, none)
+      | op :: rest => match Efp.Links.step s op with
+        | .ok s' => go s' (k + 1) rest
+        | .error e => (s, some (k, e))
+    let (s, err) := go {} 0 ops
+    let natArr (l : List Nat) : Json := Json.arr (l.map (fun (x : Nat) => Json.num (Int.ofNat x))).toArray
+    let objs := (List.range s.size).map (fun v =>
+      let x := s.get v
+      Json.mkObj [("cont", match x.cont with | some c => natArr [c.1, c.2] | none => Json.null),
+                  ("anc", natArr x.anc), ("chi", natArr x.chi)])
+    pure (Json.mkObj [("objs", Json.arr objs.toArray),
+                      ("err", match err with
+                        | none => Json.null
+                        | some (k, e) => Json.mkObj [("at", Json.num (Int.ofNat k)), ("kind", match e with
+                          | .noId => "noId" | .otherContainer => "otherContainer" | .notAttached => "notAttached" | .badRef => "badRef")]),
+                      ("mirror", Json.bool (Efp.Links.mirrorOk s)), ("slotOk", Json.bool (Efp.Links.slotOk s))])
   | "toggle" =>
     let content ← (← fl j "content").mapM (fun p => do
       let a ← jArr p
